@@ -214,12 +214,12 @@ DecQuotedField(ft, cur, j) ==
 (* value / array / object / literalStore                                   *)
 (***************************************************************************)
 RECURSIVE Dec(_, _, _, _)
-Dec(T, cur, j, un) ==
+Dec(T, cur, j, o) ==        \* o = [un: UseNumber, strict: DisallowUnknownFields]
   CASE T.g = "ptr" ->
          IF j.t = "null" THEN R(GNilP(T.v), "")
-         ELSE LET r == Dec(T.v, IF cur.nil THEN T.v ELSE cur.v, j, un) IN R(GP(r.v), r.e)     \* indirect() allocates first
+         ELSE LET r == Dec(T.v, IF cur.nil THEN T.v ELSE cur.v, j, o) IN R(GP(r.v), r.e)     \* indirect() allocates first
     [] T.g = "nil" ->
-         IF j.t = "num" /\ ~un /\ FloatOverflow(j.lit) THEN R(cur, "saved") ELSE Iface(j, un)
+         IF j.t = "num" /\ ~o.un /\ FloatOverflow(j.lit) THEN R(cur, "saved") ELSE Iface(j, o.un)
     [] j.t = "null" ->
          IF T.g \in {"slice", "bytes", "map", "tslice", "tmap"} THEN R(T, "") ELSE R(cur, "")
     [] j.t = "bool" -> IF T.g = "bool" THEN R(GB(j.b), "") ELSE R(cur, "saved")
@@ -244,7 +244,7 @@ Dec(T, cur, j, un) ==
                 IN
                 IF cur.e # <<>> /\ Len(j.e) > Len(cur.e) THEN R(cur, "dc")
                 ELSE LET st == FoldLeft(LAMBDA acc, i : IF Stops(acc.e) THEN acc
-                                                        ELSE LET r == Dec(z, IF i <= Len(cur.e) THEN cur.e[i] ELSE z, j.e[i], un) IN
+                                                        ELSE LET r == Dec(z, IF i <= Len(cur.e) THEN cur.e[i] ELSE z, j.e[i], o) IN
                                                              R(Append(acc.v, r.v), Worse(acc.e, r.e)),
                                         R(<<>>, ""), [i \in 1..Len(j.e) |-> i])
                      IN  IF st.e = "hard" THEN R(mk(st.v \o SubSeq(cur.e, Len(st.v) + 1, Len(cur.e))), "hard")
@@ -254,14 +254,14 @@ Dec(T, cur, j, un) ==
     [] OTHER ->                     \* j is an object
          CASE T.g = "map" ->        \* map[string]interface{}: created when nil, merged into otherwise
                 LET st == FoldLeft(LAMBDA acc, mem : IF Stops(acc.e) THEN acc
-                                                     ELSE LET r == Dec(GNil, GNil, mem.v, un) IN
+                                                     ELSE LET r == Dec(GNil, GNil, mem.v, o) IN
                                                           IF Stops(r.e) THEN R(acc.v, r.e)
                                                           ELSE R(SetKey(acc.v, Utf8Seq(mem.k), r.v), Worse(acc.e, r.e)),
                                    R(cur.m, ""), j.m)
                 IN  R(GMp(st.v), st.e)
            [] T.g = "tmap" ->       \* every value is decoded into a fresh zero element
                 LET st == FoldLeft(LAMBDA acc, mem : IF Stops(acc.e) THEN acc
-                                                     ELSE LET r == Dec(T.z, T.z, mem.v, un) IN
+                                                     ELSE LET r == Dec(T.z, T.z, mem.v, o) IN
                                                           IF Stops(r.e) THEN R(acc.v, r.e)
                                                           ELSE R(SetKey(acc.v, Utf8Seq(mem.k), r.v), Worse(acc.e, r.e)),
                                    R(cur.m, ""), j.m)
@@ -271,11 +271,11 @@ Dec(T, cur, j, un) ==
                 FoldLeft(LAMBDA acc, mem :
                            IF Stops(acc.e) THEN acc
                            ELSE LET idx == FieldFor(fl, mem.k) IN
-                                IF idx = 0 THEN acc
+                                IF idx = 0 THEN (IF o.strict THEN R(acc.v, Worse(acc.e, "saved")) ELSE acc)   \* "unknown field": remembered, the value is skipped
                                 ELSE LET fd == fl[idx]
                                          ft == GetF(T, fd.path)
                                          r  == IF fd.quoted THEN DecQuotedField(ft, GetF(acc.v, fd.path), mem.v)
-                                               ELSE Dec(ft, GetF(acc.v, fd.path), mem.v, un)
+                                               ELSE Dec(ft, GetF(acc.v, fd.path), mem.v, o)
                                      IN  R(SetF(acc.v, fd.path, r.v), Worse(acc.e, r.e)),
                          R(cur, ""), j.m)
            [] OTHER -> R(cur, "saved")
@@ -283,8 +283,11 @@ Dec(T, cur, j, un) ==
 \* Unmarshal(text, &x) for x a zero value of type T.  The fork's Unmarshal* functions always decode with UseNumber
 \* (decode.go sets d.useNumber = true): a number stored into an interface{} is a json.Number holding the literal.
 \* A Decoder does so only after UseNumber(); otherwise it stores float64 like encoding/json.
-Unmarshal(T, j) == Dec(T, T, j, TRUE)
-DecoderDecode(T, j) == Dec(T, T, j, FALSE)
+Opt(un, strict) == [un |-> un, strict |-> strict]
+Unmarshal(T, j) == Dec(T, T, j, Opt(TRUE, FALSE))
+DecoderDecode(T, j) == Dec(T, T, j, Opt(FALSE, FALSE))
+\* a Decoder after DisallowUnknownFields(): a member that matches no field of a struct is an error (remembered)
+DecoderStrict(T, j) == Dec(T, T, j, Opt(FALSE, TRUE))
 
 (***************************************************************************)
 (* Equality of Go values as an observer sees them: map entries in any      *)
